@@ -138,7 +138,8 @@ func runPair(e *concEnv, a, w concOp, g, iters int, watchdog time.Duration) stri
 		}
 	}
 	// atomicity post-condition: every concurrently added token is present
-	if w.name == "Bundle.AddTokens" && a.name != "Bundle.Filter" {
+	// (Filter keeps everything here - bundle.KeepAll - so it must not lose a concurrently added token either)
+	if w.name == "Bundle.AddTokens" {
 		extra := 0
 		if a.name == "Bundle.Discharge" {
 			extra = -1 // discharges may be appended too; only a lower bound is checked
@@ -176,6 +177,8 @@ func famConc(r *Rng, o *Out, tier string) {
 			gg, ii, ww := g, iters, wd
 			if hunt[a.name] || hunt[w.name] {
 				gg, ii, ww = 8, 4000, 6*time.Second // hammer the pair the model flagged
+			} else if hunt["*"] {
+				gg, ii, ww = 8, 1500, 6*time.Second // the tie is broken: hammer every pair
 			}
 			fmt.Fprintf(os.Stderr, "conc pair %s x %s\n", a.name, w.name)
 			res := runPair(e, a, w, gg, ii, ww)
